@@ -6,7 +6,7 @@ ROOT = os.path.dirname(os.path.dirname(os.path.abspath(__file__)))
 ALL = ["C%02d" % i for i in range(1, 21)]
 CHECKS = {
   "C08": dict(
-    technique="property-based testing with a recording generator (proptest): the source generator records every dependency it writes with its byte range; the analyser's report must equal the record; position lookup through a one-module graph; round trip of every reported range over the repository's spec corpus and a metamorphic trivia-insertion layer over mutated corpus sources",
+    technique="property-based testing with a recording generator (proptest): the source generator records every dependency it writes with its byte range; the analyser's report must equal the record; position lookup through a one-module graph; round trip of every reported range over the repository's spec corpus, a metamorphic trivia-insertion layer over mutated corpus sources, and (thorough tier) a coverage-guided libFuzzer target with the range round-trip oracle inside",
     text="Generated programs over every dependency-bearing form for 7 media types with non-ASCII / astral trivia, CRLF, shebang, escapes, templates, nesting in functions / classes / namespaces / declare-module blocks, pragma styles and JSDoc forms. Oracles: the multiset of reported dependencies (kind, cooked text, attributes, dynamic argument shape, types pragma) equals the record - every one once, nothing else; each reported range converted with an independent line/character counter equals the recorded byte range; Dependency::includes finds exactly the owning dependency and its range for positions inside a site; corpus layer: the source slice at every reported range is the specifier; mutated-corpus layer (metamorphic): inserting trivia (a comment line with non-ASCII / astral / U+2028 text, a comment before an import or export statement, a shebang, CR before every LF) into a corpus source leaves the reported dependencies unchanged and moves every reported range by exactly the bytes inserted before it. Exploration only.",
     design_ref="DESIGN.md §4 C08",
     note="Trusted: the generator's own bookkeeping of byte offsets; swc as the parser on the implementation side only.",
@@ -36,7 +36,7 @@ CHECKS = {
     note="Trusted: the in-memory FastCheckCache of the harness (engine/src/fc.rs MemCache stores what it is given, keyed as requested).",
   ),
   "C13": dict(
-    technique="property-based round-trip and differential testing (proptest): ModuleInfo -> JSON -> ModuleInfo on analyser-produced values; moduleGraph1 rendering upgraded vs the moduleGraph2 original; registry built from embedded module info vs from parsing",
+    technique="property-based round-trip and differential testing (proptest): ModuleInfo -> JSON -> ModuleInfo on analyser-produced values (thorough tier: also inside a coverage-guided libFuzzer target over arbitrary parsable text); moduleGraph1 rendering upgraded vs the moduleGraph2 original; registry built from embedded module info vs from parsing",
     text="(a) every ModuleInfo the analyser produces from generated programs round-trips through its JSON form (equality and fixed point); (b) the legacy rendering of the same value (types specifier replaced by the leading comment) upgrades to the same @deno-types text and range; (c) generated registries published with moduleGraph2 computed by this analyser vs without, with a cache image deciding cached/uncached content per file, under all graph kinds: equal serialised graph, source texts and errors. Exploration only.",
     design_ref="DESIGN.md §4 C13",
     note="Trusted: serde_json; the registry materialiser (engine/src/registry.rs).",
